@@ -305,6 +305,8 @@ pub fn run(tier: Tier, seed: u64) -> i32 {
             }
             scripts.sort();
             scripts.dedup();
+            let mut redrawn_random = 0u64;
+            let n_all = scripts.len();
             for sc in &scripts {
                 match call_site(site, sc) {
                     Ok((out, used, _)) => {
@@ -313,6 +315,10 @@ pub fn run(tier: Tier, seed: u64) -> i32 {
                             // the site drew again for this answer (e.g. it refuses a degenerate draw and draws anew): its value comes
                             // from later bytes, which all scripts share, so it says nothing about injectivity
                             report.count("answers_after_which_the_site_drew_again", 1);
+                            let degenerate = sc.iter().all(|b| *b == sc[0]) || *sc == base;
+                            if site.direct && !degenerate && sc.len() >= 4 {
+                                redrawn_random += 1;
+                            }
                             continue;
                         }
                         if let Some(prev) = seen.get(&out) {
@@ -330,6 +336,11 @@ pub fn run(tier: Tier, seed: u64) -> i32 {
                         break;
                     }
                 }
+            }
+            // a site whose value is the drawn bytes may refuse a handful of special answers (all zero, ...), not a
+            // measurable share of ordinary ones: then some values (a byte value, a range) can never come out
+            if redrawn_random > 0 {
+                viol(&report, site.name, "ordinary-answers-refused", json!({"refused": redrawn_random, "of": n_all}), format!("{redrawn_random} of {n_all} ordinary (counter-mode) RNG answers made the site draw again: part of the value space is never produced"));
             }
         }
         match call_site(site, &vec![0xFFu8; w]) {
